@@ -14,8 +14,9 @@ GNext == \/ \E t \in Tx : Insert(t) /\ hist' = Append(hist, Rec("Insert", t))
                           /\ Remove(t) /\ hist' = Append(hist, Rec("Remove", t))
          \/ Select /\ hist' = Append(hist, Rec("Select", [s |-> 0, n |-> 0, c |-> 0]))
 
-GView == <<pending, weights, out, res>>
+Last == IF hist = <<>> THEN <<>> ELSE hist[Len(hist)]
+GView == <<Last, pending, weights, out, res>>
 GConstr == Len(hist) <= MaxOps /\ Cardinality(pending) <= MaxPending
-Emit == IF EmitAt = 0 THEN (res = "select" => PrintT(<<"HIST", ToJson(hist)>>))
-        ELSE (Len(hist) = EmitAt => PrintT(<<"HIST", ToJson(hist)>>))
+GNextC == (IF res = "select" THEN PrintT(<<"HIST", ToJson(hist)>>) ELSE TRUE) /\ GNext
+Emit == Len(hist) = EmitAt => PrintT(<<"HIST", ToJson(hist)>>)
 =============================================================================
